@@ -87,7 +87,19 @@ def c08_phases(ctx):
             cmds = []
             cost = 0.0
             for tag, sd in seeds:
-                cmds.append(cmd_keygen(alg, params, sd, out={"sk": "sk", "pk": "pk"}))
+                kg = cmd_keygen(alg, params, sd, out={"sk": "sk", "pk": "pk"})
+                if li % 2 == 1:
+                    # the Seed value is built from a 32-byte array whose bytes behind the seed are NOT zero:
+                    # they must not select the key
+                    kg["seed_tail"] = {"rand": 32, "tag": "c08/tail/%s/%d" % (alg, li)}
+                    cmds.append(kg)
+                    # ... and the key must be usable: sign with it and verify (affordable shapes only)
+                    if all(h <= 5 for _, h in params):
+                        cmds.append(cmd_sign(alg, slot("sk"), "7a11", out={"sig": "sig"}, light=True))
+                        cmds.append(cmd_verify(alg, "7a11", slot("sig"), slot("pk")))
+                    cost += tree_cost(alg, *params[0])
+                    continue
+                cmds.append(kg)
                 cmds.append({"op": "hook", "hook": "root", "alg": alg, "key": slot("sk")})
                 cost += tree_cost(alg, *params[0])
             groups.append({"name": "c08/%s/%d" % (alg, li), "cmds": cmds, "cost": cost})
@@ -119,6 +131,9 @@ def c01_phases(ctx):
         groups.append(walk_group("c01/%s/full-2x2x2" % alg, alg, [(w1, 2), (w2, 2), (w0, 2)],
                                  list(range(64)) if not quick else list(range(20)), MSG_LENS, chain=True))
         groups.append(walk_group("c01/%s/h5-roll" % alg, alg, [(w2, 2), (4, 5)], [30, 31, 32, 33, 63, 64, 127], [4096, 0]))
+        g = walk_group("c01/%s/seed-tail" % alg, alg, [(w1, 2), (w0, 2)], [0, 7, 15], [21])
+        g["cmds"][0]["seed_tail"] = {"rand": 32, "tag": "c01/tail/%s" % alg}
+        groups.append(g)
         groups.append(walk_group("c01/%s/8lvl" % alg, alg, [(4, 2), (2, 2)] * 4,
                                  [0, 3, 4, 255, 256, (1 << 16) - 1], [7]))
         if ai == 0:
@@ -1247,3 +1262,15 @@ def c04_phases_with_demo(ctx):
 
 REGISTRY["C08"]["phases"] = c08_phases_with_demo
 REGISTRY["C04"]["phases"] = c04_phases_with_demo
+
+
+
+# ---- C11: lifetime queries on well-formed keys with tall parameter lists must not fail arithmetically ------
+def c11_phases_with_arith(ctx):
+    ph = c11_phases(ctx)
+    ph[0]["groups"] += arith_groups(ctx, True)[:12 if ctx["tier"] == "quick" else None]
+    ph[0]["space"] += "; counter/lifetime arithmetic for tall parameter lists through the hook"
+    return ph
+
+
+REGISTRY["C11"]["phases"] = c11_phases_with_arith
